@@ -18,7 +18,7 @@ from props import parse_common as pc
 LEVEL = 'proof'
 MODULES = ['Pysmi.Props.C12', 'Pysmi.Pins.Lex']
 LAKE_TARGETS = ['Pysmi.Props.C12', 'Pysmi.Pins.Lex']
-CLASSES = ['symtable', 'intermediate', 'pysnmp', 'jsondoc', 'parser']
+CLASSES = ['symtable', 'intermediate', 'pysnmp', 'jsondoc', 'parser', 'compiler']
 THEOREMS = (['Pysmi.Obj.C12_history_independent', 'Pysmi.Obj.C12_leak_witness', 'Pysmi.Obj.parseFrom_fresh',
              'Pysmi.Obj.C12_parser_history_independent', 'Pysmi.Obj.C12_sorted_order_free', 'Pysmi.Obj.C12_unsorted_witness'] +
             ['Pysmi.Generated.Fields.C12_covered_%s' % c for c in CLASSES] +
@@ -37,8 +37,8 @@ LEVEL_TEXT = ('Proved in Lean for histories of every length and content: an obje
               'sorting after iterating a set removes the dependence on the enumeration order. Modelled rather than verified: that the body '
               'really reads/writes only the listed fields (static analysis of self.X accesses; aliasing through locals, class-level mutable '
               'data, module globals and the PLY objects are outside it) - this is what the scrambling/snapshot runs, the shared-object '
-              'histories and the hash-seed subprocess runs check on every run (partial). MibCompiler keeps all per-call state in locals; '
-              'that is checked by histories only.')
+              'histories and the hash-seed subprocess runs check on every run (partial). MibCompiler keeps all per-call state in locals: its table of written fields is empty (C12_covered_compiler) and the '
+              'histories exercise it.')
 LEVEL_NOTE = ('Trusted: Lean kernel + standard axioms; harness/fieldflow.py (static analysis) and translate.py; the harness; CPython set/dict '
               'semantics; PLY.')
 ASSUMPTIONS = ['the error message of "Unknown parent symbol" may name a different one of several unknown parents under another hash seed; '
@@ -69,9 +69,13 @@ def canon_status(st):
     return d
 
 
+PAIRS = []      # (index of a healthy set, index of its variant with a broken / missing member)
+
+
 def items(ctx):
     """the pool of inputs: (label, {name: text}, requested names)"""
     rng = ctx.rng
+    del PAIRS[:]
     pool = []
     base = ctx.seed * 1000 + 12000
     n = 10 if ctx.tier == 'quick' else 60
@@ -81,7 +85,14 @@ def items(ctx):
         g.build()
         texts = {nm: mibgen.print_module(m, r, wild=(i % 3 == 0)) for nm, m in g.modules.items()}
         pool.append(('healthy', texts, list(texts)))
+        healthy_idx = len(pool) - 1
         names = list(texts)
+        if i % 2 == 1:
+            # one member cannot be found at all (and is there on the next call, see the directed histories)
+            gone = dict(texts)
+            del gone[names[-1]]
+            pool.append(('broken:missing-member', gone, names))
+            PAIRS.append((healthy_idx, len(pool) - 1))
         if i % 3 == 0:
             # broken member: truncated text / illegal character / unknown parent
             bad = dict(texts)
@@ -100,6 +111,7 @@ def items(ctx):
             else:
                 bad[victim] = re.sub(r'END\s*$', 'zzOrphan OBJECT IDENTIFIER ::= { zzNowhere 1 }\nEND\n', texts[victim])
             pool.append(('broken:' + kind, bad, names))
+            PAIRS.append((healthy_idx, len(pool) - 1))
         if i % 4 == 1:
             pool.append(('missing-dependency', {names[0]: texts[names[0]].replace('IMPORTS', 'IMPORTS zzGhost FROM ZZ-GHOST-MIB', 1)}, [names[0]]))
     pool.append(('smiv1-index', {'ACME-V1IDX-MIB': SMIV1_INDEX}, ['ACME-V1IDX-MIB']))
@@ -279,12 +291,22 @@ def run(ctx):
         return fresh[(be, idx, opt)]
     # (A)
     n_hist = 12 if ctx.tier == 'quick' else 150
-    for h in range(n_hist):
+    directed = []
+    for hi, vi in (PAIRS if ctx.tier != 'quick' else PAIRS[:8]):
+        # the same module set first with a broken or missing member, then intact (and the other way round): what went wrong
+        # with a module in one call says nothing about the next call
+        directed.append([vi, hi])
+        directed.append([hi, vi, hi])
+    for h in range(n_hist + len(directed)):
         be = 'json' if h % 2 == 0 else 'pysnmp'
         sc = SharedCompiler(be)
-        seq = [rng.randrange(len(pool)) for _ in range(rng.randint(2, 7))]
-        if rng.random() < 0.5:
-            seq.append(seq[0])
+        if h >= n_hist:
+            seq = directed[h - n_hist]
+            res.count('directed-histories')
+        else:
+            seq = [rng.randrange(len(pool)) for _ in range(rng.randint(2, 7))]
+            if rng.random() < 0.5:
+                seq.append(seq[0])
         # most histories use one option set throughout, the others change options between calls
         opts = [0] * len(seq) if h % 3 != 2 else [rng.randrange(len(OPTION_SETS)) for _ in seq]
         for pos, idx in enumerate(seq):
